@@ -593,6 +593,7 @@ func checkValueTypeFold(c *core.Ctx) {
 				st.Emit("ELEMTYPE", call.Pos(), rv)
 				return absint.S("T(" + rv.Canon() + ")"), true
 			case "octosql.TypeSum":
+				st.Emit("SUM", call.Pos())
 				return absint.S("TS(" + args[0].Canon() + "," + args[1].Canon() + ")"), true
 			}
 			return nil, false
@@ -619,6 +620,18 @@ func checkValueTypeFold(c *core.Ctx) {
 			}
 			if recs != iters {
 				bad = fmt.Sprintf("over %d element(s) only %d element type(s) are taken into the reported type: a skipped element can have a different (nested) type, and the value then does not match the type it reports for itself", iters, recs)
+			}
+			// every element type that was taken must also end up in the result (a conditional TypeSum drops it again)
+			if kind == "TypeIDList" {
+				sums := 0
+				for _, e := range o.Events {
+					if e.Name == "SUM" {
+						sums++
+					}
+				}
+				if iters > 0 && sums != iters-1 {
+					bad = fmt.Sprintf("over %d element(s) only %d are summed into the element type: an element whose type is not summed in can differ from the others inside (a list of [1] and ['a'] would report [[Int]]), and the value then does not match the type it reports for itself", iters, sums+1)
+				}
 			}
 			if t := fieldAt(o, o.Values[0], "TypeID"); t == nil || t.Canon() != fmt.Sprint(ids[kind]) {
 				bad = "the reported type must be of the value's own kind"
